@@ -17,7 +17,7 @@ package timeout
 //@   modifies nothing
 //@   ensures result != nil && implements(result, policy.ExecutionInternal) && fresh(payload(result))
 //@ extfunc github.com/failsafe-go/failsafe-go/policy.ExecutionInternal.Cancel
-//@   modifies nothing
+//@   havoc
 
 //@ func (*executor).IsFailure
 //@   ensures [C07.isfailure] result == (err != nil && ufb("errors.Is", err, ErrExceeded))
